@@ -25,9 +25,9 @@ BUDGET = {
 RULE = (
     "cases: a deterministic two-party script of 2-14 steps (item i->w / w->i with fillers up to 200 KB, sub-channel "
     "created by either side and passed bare or nested, callback delivery of a burst, explicit close of a sub-channel by "
-    "either side, makefile('r') reads of a burst, final outcome return/raise) x remote backend {thread, main_thread_only, "
+    "either side, makefile('r') reads of a burst, two initiator threads writing 70-200 KB frames on different channels, final outcome return / raise / gateway.exit() while the body still has items to deliver) x remote backend {thread, main_thread_only, "
     "gevent} run on the 4 transports x schedules (uniform/sticky/PCT, pipe/socket capacities, read chunking); and "
-    "control cases on a proxied gateway (kill, close_write, wait).  Non-trivial = at least 3 steps on all four "
+    "control cases on a proxied gateway (kill, close_write, wait, wait for a sub that exits by itself).  Non-trivial = at least 3 steps on all four "
     "transports; distinct = distinct event-log digests of the 4-run bundle."
 )
 ASSUMPTIONS = [
